@@ -412,8 +412,11 @@ func transTypeLfd(transTV func(TypeVar) FType, lfd LetFuncDef) LetFuncDef {
 	return LetFuncDef{Fvar: nfvar, Params: nparams, Body: nbody}
 }
 
-func resolveOneTypeVar(rsv Resolver, tv TypeVar) FType {
-	recurse := (func(_r0 TypeVar) FType { return resolveOneTypeVar(rsv, _r0) })
+func resolveOneTypeVarD(rsv Resolver, depth int, tv TypeVar) FType {
+	frt.IfOnly((depth > 1000), (func() {
+		PanicNow("Too deep type resolution, maybe cyclic type, give up")
+	}))
+	recurse := (func(_r0 TypeVar) FType { return resolveOneTypeVarD(rsv, (depth + 1), _r0) })
 	ei := rsLookupEI(rsv, tv.Name)
 	rcand := ei.resType
 	switch _v15 := (rcand).(type) {
@@ -427,6 +430,10 @@ func resolveOneTypeVar(rsv Resolver, tv TypeVar) FType {
 	default:
 		return transTVFType(recurse, rcand)
 	}
+}
+
+func resolveOneTypeVar(rsv Resolver, tv TypeVar) FType {
+	return resolveOneTypeVarD(rsv, 0, tv)
 }
 
 func resolveType(rsv Resolver, ftp FType) FType {
